@@ -139,6 +139,7 @@ pub fn stmt(st: &syn::Stmt) -> J {
             "Expr",
             vec![("expr", node("Macro", vec![("path", path(&m.mac.path)), ("args", macro_args(&m.mac))])), ("semi", J::B(m.semi_token.is_some()))],
         ),
+        syn::Stmt::Item(syn::Item::Const(c)) => node("Item", vec![("const", s(&c.ident.to_string())), ("e", expr(&c.expr)), ("text", s(&toks(c)))]),
         syn::Stmt::Item(i) => node("Item", vec![("text", s(&toks(i)))]),
     }
 }
@@ -237,9 +238,16 @@ fn sig(sg: &syn::Signature) -> Vec<(&'static str, J)> {
 pub fn file_items(file: &syn::File) -> J {
     let mut fns = vec![];
     let mut structs = vec![];
-    fn walk(items: &[syn::Item], fns: &mut Vec<J>, structs: &mut Vec<J>) {
+    let mut consts = vec![];
+    fn walk(items: &[syn::Item], fns: &mut Vec<J>, structs: &mut Vec<J>, consts: &mut Vec<J>) {
         for it in items {
             match it {
+                syn::Item::Const(c) if !is_cfg_test(&c.attrs) => {
+                    consts.push(J::O(vec![("name", s(&c.ident.to_string())), ("e", expr(&c.expr))]));
+                }
+                syn::Item::Static(c) if !is_cfg_test(&c.attrs) => {
+                    consts.push(J::O(vec![("name", s(&c.ident.to_string())), ("e", expr(&c.expr))]));
+                }
                 syn::Item::Fn(f) if !is_cfg_test(&f.attrs) => {
                     let mut v = vec![("impl_self", J::N), ("impl_trait", J::N)];
                     v.append(&mut sig(&f.sig));
@@ -250,6 +258,9 @@ pub fn file_items(file: &syn::File) -> J {
                     let self_ty = toks(&im.self_ty);
                     let tr = match &im.trait_ { Some((_, p, _)) => s(&toks(p)), None => J::N };
                     for ii in &im.items {
+                        if let syn::ImplItem::Const(c) = ii {
+                            consts.push(J::O(vec![("name", s(&c.ident.to_string())), ("e", expr(&c.expr))]));
+                        }
                         if let syn::ImplItem::Fn(f) = ii {
                             if is_cfg_test(&f.attrs) {
                                 continue;
@@ -267,15 +278,15 @@ pub fn file_items(file: &syn::File) -> J {
                 }
                 syn::Item::Mod(m) if !is_cfg_test(&m.attrs) => {
                     if let Some((_, items)) = &m.content {
-                        walk(items, fns, structs);
+                        walk(items, fns, structs, consts);
                     }
                 }
                 _ => {}
             }
         }
     }
-    walk(&file.items, &mut fns, &mut structs);
-    J::O(vec![("fns", J::A(fns)), ("structs", J::A(structs))])
+    walk(&file.items, &mut fns, &mut structs, &mut consts);
+    J::O(vec![("fns", J::A(fns)), ("structs", J::A(structs)), ("consts", J::A(consts))])
 }
 
 pub fn dump(paths: &[String], out_path: &str) -> Result<(), String> {
